@@ -342,8 +342,18 @@ def handle (op : String) (fs : List (String × String)) : String :=
     | some (.error e) => e
     | some (.ok F) => generationsOf F
   else if op == "font.twice" then
-    -- the property: writing the same font again gives the same bytes
-    if (getField fs "tag").isSome then "same" else "bad-case"
+    -- the property: writing the same font again gives the same bytes (a rejected foreign table
+    -- set yields no font and is outside the property)
+    if (getField fs "tag").isSome then "same"
+    else match firstGen fs with
+      | none => "bad-case"
+      | some (.error e) => if (getField fs "sc").isSome then e else "same"
+      | some (.ok _) => "same"
+  else if op == "font.nf" then
+    -- the property's first clause: Read(Write(F)) is the explicit normal form of F
+    match parseMeta fs with
+    | none => "bad-case"
+    | some F => if decide (InDomain F) then showMeta (nf F) else "outside-domain"
   else "bad-op"
 
 end SfntV.Drive.Font
